@@ -238,7 +238,11 @@ func sortedSchemaKeys(m map[schema.SchemaKey]*schema.BodySchema) []schema.Schema
 }
 
 func decodeSchemaKey(key schema.SchemaKey) (schema.DependencyKeys, error) {
-	var dk schema.DependencyKeys
+	// Only the labels are of interest here. The attribute part of a key
+	// (which has no decoder) must not make the whole key undecodable.
+	var dk struct {
+		Labels []schema.LabelDependent `json:"labels"`
+	}
 	err := json.Unmarshal([]byte(key), &dk)
-	return dk, err
+	return schema.DependencyKeys{Labels: dk.Labels}, err
 }
